@@ -1722,6 +1722,12 @@ lx_harness! {
         if has_prev {
             shadow::preload_token(shadow::mk_token(TokenChannel::DEFAULT, prev_tt, 1, 1, 0, Payload::None));
         }
+        // possibly a hidden / comment token between the previous default-channel token and the label
+        let between: bool = kani::any();
+        if between {
+            let comment: bool = kani::any();
+            shadow::preload_token(shadow::mk_token(if comment { TokenChannel::COMMENT } else { TokenChannel::HIDDEN }, if comment { TokenType::CStyleComment } else { TokenType::WS }, 2, 1, 0, Payload::None));
+        }
         lx.start_token();
         lx.emit_token(TokenChannel::DEFAULT, TokenType::MacroIdentifier, Payload::None);
         let label_at = shadow::tok_n() - 1;
@@ -1737,10 +1743,10 @@ lx_harness! {
         kani::assume(mid.pi < t.n && t.ch[mid.pi] == ':');
         // mirror (label shown as already retyped, which is the state iter_token_infos observes)
         let n0 = shadow::tok_n();
-        assert!(n0 <= 3);
-        let mut mir = [label; 3];
+        assert!(n0 <= 4);
+        let mut mir = [label; 4];
         let mut i = 0;
-        while i < 3 {
+        while i < 4 {
             if i < n0 {
                 mir[i] = shadow::tok(i);
                 if i == label_at {
@@ -1768,6 +1774,7 @@ lx_harness! {
             assert!(shadow::tok(0).token_type == prev_tt, "C18: earlier tokens are untouched");
         }
         kani::cover!(sep && t.ch[0] == '\n', "separator before a label whose colon is on the next line");
+        kani::cover!(!sep && has_prev && between, "no separator after ';' / a label / %then / %else although a hidden token stands between");
         kani::cover!(!sep && has_prev);
         std::mem::forget(lx);
     }
